@@ -113,9 +113,31 @@ EXTRA_TOKENS = ['\\mcomma', '\\mcommak', '\\mchars', '\\mtack', '\\ta', '\\tb', 
                 '\\many', '\\mm', ',', '+', '^', '_', '(', ')', '{', '}', 'a', ' ', '%', '\\']
 
 
+def extdelta_db():
+    """database whose first category is auto-named, with an environment whose body extends the
+    latex context (ParsingStateDeltaExtendLatexContextDb) by a macro taking an optional argument"""
+    from pylatexenc.macrospec import (LatexContextDb, MacroSpec, EnvironmentSpec,
+                                      ParsingStateDeltaExtendLatexContextDb)
+    db = LatexContextDb()
+    db.add_context_category('base', macros=[MacroSpec('textbf', '{')], environments=[
+        EnvironmentSpec('defenv', '', body_parsing_state_delta=ParsingStateDeltaExtendLatexContextDb(
+            extend_latex_context=dict(macros=[MacroSpec('entry', '[')], environments=[],
+                                      specials=[]))),
+        EnvironmentSpec('defenvb', '[', body_parsing_state_delta=ParsingStateDeltaExtendLatexContextDb(
+            extend_latex_context=dict(macros=[MacroSpec('entry', '{{'), MacroSpec('textbf', '')],
+                                      environments=[], specials=[]))),
+    ])
+    db.add_context_category(None, macros=[MacroSpec('auto', '[{')], prepend=True)
+    db.set_unknown_macro_spec(MacroSpec(''))
+    db.set_unknown_environment_spec(EnvironmentSpec(''))
+    return db
+
+
 def build(recipe):
     if recipe == 'extra':
         return extra_parsers_db()
+    if recipe == 'extdelta':
+        return extdelta_db()
     """recipe: 'default' | 'every' | 'every-nounknown' | 'every-strings' | 'extended'"""
     if recipe is None or recipe == 'default':
         return default_db()
